@@ -3,6 +3,7 @@ package main
 // C04 — emitted assembly is closed; C05 — -optimize changes layout only.
 
 import (
+	"strconv"
 	"fmt"
 	"go/types"
 	"strings"
@@ -56,14 +57,26 @@ func registerCalls(fn *ssa.Function) []ssa.CallInstruction {
 
 // labelRefs lists the write sites of fn that reference a generated label (<script>_<id>).
 type labelRef struct {
-	ws     writeSite
-	prefix ssa.Value
-	id     ssa.Value
+	ws      writeSite
+	prefixT string
+	idT     string
 }
 
-func labelRefsOf(fn *ssa.Function) []labelRef {
+// paramOfTerm: the parameter a term of the form $k denotes.
+func paramOfTerm(fn *ssa.Function, t string) *ssa.Parameter {
+	if !strings.HasPrefix(t, "$") {
+		return nil
+	}
+	k, err := strconv.Atoi(t[1:])
+	if err != nil || k < 0 || k >= len(fn.Params) {
+		return nil
+	}
+	return fn.Params[k]
+}
+
+func (c *Ctx) labelRefsOf(fn *ssa.Function) []labelRef {
 	var out []labelRef
-	for _, ws := range writeSites(fn) {
+	for _, ws := range c.sitesOf(fn) {
 		if !ws.isFmt || !strings.Contains(ws.format, "%s_%d") {
 			continue
 		}
@@ -75,8 +88,8 @@ func labelRefsOf(fn *ssa.Function) []labelRef {
 				verbs++
 			}
 		}
-		if verbs+1 < len(ws.args) {
-			out = append(out, labelRef{ws: ws, prefix: ws.args[verbs], id: ws.args[verbs+1]})
+		if verbs+1 < len(ws.argT) {
+			out = append(out, labelRef{ws: ws, prefixT: ws.argT[verbs], idT: ws.argT[verbs+1]})
 		}
 	}
 	return out
@@ -94,39 +107,66 @@ func c04a(c *Ctx) {
 			comparers[f] = true
 		}
 	}
-	for _, fn := range c.W.FuncsOf("emitter") {
-		refs := labelRefsOf(fn)
-		if len(refs) == 0 {
+	refOf := func(fn *ssa.Function, ws writeSite) (labelRef, bool) {
+		for _, r := range c.labelRefsOf(fn) {
+			if r.ws.call == ws.call && r.ws.inner == ws.inner && r.ws.depth == ws.depth {
+				return r, true
+			}
+		}
+		return labelRef{}, false
+	}
+	registered := func(fn *ssa.Function, ws writeSite) bool {
+		r, ok := refOf(fn, ws)
+		if !ok {
+			return false
+		}
+		if comparers[fn] && ws.depth == 0 {
+			return r.idT == "$1.id"
+		}
+		if fn.Name() == "getLabel" {
+			return r.idT == "$0.id"
+		}
+		for _, rc := range registerCalls(fn) {
+			if c.term(fn, rc.Common().Args[0]) == r.idT && instrDominates(rc.(ssa.Instruction), ws.call.(ssa.Instruction)) {
+				return true
+			}
+		}
+		return false
+	}
+	isRef := func(ws writeSite) bool { return ws.isFmt && strings.Contains(ws.format, "%s_%d") }
+	for _, d := range c.siteDuties(c.W.FuncsOf("emitter"), isRef, registered) {
+		fn := d.fn
+		r, ok := refOf(fn, d.ws)
+		if !ok {
 			continue
 		}
 		fk := c.W.FuncKey(fn)
-		for _, r := range refs {
-			idT := c.term(fn, r.id)
-			pos := c.W.Pos(r.ws.call.Pos())
-			key := fk + "/ref[" + strings.TrimSpace(strings.SplitN(strings.TrimSpace(r.ws.format), " ", 2)[0]) + " " + pretty(idT) + "]"
-			// prefix must be the script name parameter (a string parameter)
-			pp, isParam := r.prefix.(*ssa.Parameter)
-			okPrefix := isParam && types.Identical(pp.Type(), types.Typ[types.String])
-			if fn.Name() == "getLabel" {
-				okPrefix = isParam
-			}
-			c.Check(okPrefix, key+"/prefix", pos, "label prefix is the script name parameter", "label reference is built with prefix "+c.term(fn, r.prefix)+" instead of the script name")
-			if comparers[fn] {
-				c.Check(idT == "$1.id", key+"/id", pos, "comparison jumps to the destination it was given", "comparison references "+idT+", expected dest.id")
-				continue
-			}
-			if fn.Name() == "getLabel" {
-				c.Check(idT == "$0.id", key+"/id", pos, "a chunk's label carries its own id", "getLabel formats "+idT+", expected the chunk's own id")
-				continue
-			}
-			// registered on every path before the write
-			ok := false
-			for _, rc := range registerCalls(fn) {
-				if c.term(fn, rc.Common().Args[0]) == idT && instrDominates(rc.(ssa.Instruction), r.ws.call.(ssa.Instruction)) {
-					ok = true
-				}
-			}
-			c.Check(ok, key+"/registered", pos, "registerJumpChunk("+pretty(idT)+") dominates the reference", "label "+pretty(idT)+" is referenced but registerJumpChunk was not called with it on every path before: its label may not be rendered")
+		idT := r.idT
+		pos := c.W.Pos(r.ws.call.Pos())
+		key := fk + "/ref[" + strings.TrimSpace(strings.SplitN(strings.TrimSpace(r.ws.format), " ", 2)[0]) + " " + pretty(idT) + "]"
+		// prefix must be the script name parameter (a string parameter)
+		pp := paramOfTerm(fn, r.prefixT)
+		isParam := pp != nil
+		okPrefix := isParam && types.Identical(pp.Type(), types.Typ[types.String])
+		if fn.Name() == "getLabel" {
+			okPrefix = isParam
+		}
+		c.Check(okPrefix, key+"/prefix", pos, "label prefix is the script name parameter", "label reference is built with prefix "+pretty(r.prefixT)+" instead of the script name")
+		switch {
+		case d.ok && comparers[fn] && d.ws.depth == 0:
+			c.OK(key+"/id", pos, "comparison jumps to the destination it was given")
+		case d.ok && fn.Name() == "getLabel":
+			c.OK(key+"/id", pos, "a chunk's label carries its own id")
+		case d.ok:
+			c.OK(key+"/registered", pos, "registerJumpChunk("+pretty(idT)+") dominates the reference")
+		case d.transferred:
+			c.OK(key+"/registered-by-callers", pos, "helper writes the reference for its callers; each caller is checked with the write inlined")
+		case comparers[fn] && d.ws.depth == 0:
+			c.Bad(key+"/id", pos, "comparison references "+idT+", expected dest.id")
+		case fn.Name() == "getLabel":
+			c.Bad(key+"/id", pos, "getLabel formats "+idT+", expected the chunk's own id")
+		default:
+			c.Bad(key+"/registered", pos, "label "+pretty(idT)+" is referenced but registerJumpChunk was not called with it on every path before: its label may not be rendered")
 		}
 	}
 	// comparison chain: leaf registers truthyDest.id, hands truthyDest down, and the dispatcher passes it on
@@ -170,8 +210,8 @@ func c05c(c *Ctx) {
 				return false
 			}
 			refCalls := map[ssa.Instruction]bool{}
-			for _, r := range labelRefsOf(fn) {
-				if c.term(fn, r.id) == x {
+			for _, r := range c.labelRefsOf(fn) {
+				if r.idT == x {
 					refCalls[r.ws.call.(ssa.Instruction)] = true
 				}
 			}
@@ -247,7 +287,7 @@ func c04b(c *Ctx) {
 		c.Check(c.term(fn, call.Common().Args[1]) == "$2" && c.term(fn, call.Common().Args[2]) == "$3", name+"/label-args", c.W.Pos(call.Pos()), "label rendered with the script name and scope", "renderLabel called with unexpected script name / scope arguments")
 		// body written right after for the same chunk id
 		okBody := false
-		for _, ws := range writeSites(fn) {
+		for _, ws := range c.sitesOf(fn) {
 			if ws.call.Block().Dominates(call.Block()) || call.Block().Dominates(ws.call.Block()) || true {
 				at := c.term(fn, ws.arg)
 				if strings.Contains(at, "["+k+"]") && strings.Contains(at, "String") && sameLoop(ws.call.Block(), call.Block()) {
